@@ -459,6 +459,29 @@ class SMUserList(UserList, ABC):
         """
         return self.__class__(super().pop(i))
 
+    def __add__(self, other):
+        """
+        Concatenate two instances (superclass method)
+
+        :raises TypeError: operands are of different classes
+
+        ``X + Y`` for classes that do not define their own addition is list
+        concatenation, which is only meaningful for operands of the same class.
+        """
+        if not type(self) == type(other):
+            raise TypeError("can't concatenate different type of object")
+        return super().__add__(other)
+
+    def __radd__(self, other):
+        if not type(self) == type(other):
+            raise TypeError("can't concatenate different type of object")
+        return super().__radd__(other)
+
+    def __iadd__(self, other):
+        if not type(self) == type(other):
+            raise TypeError("can't concatenate different type of object")
+        return super().__iadd__(other)
+
     def binop(self, right, op, op2=None, list1=True):
         """
         Perform binary operation
